@@ -15,7 +15,7 @@ PROP = Property(
     coq_targets=["Extract/Extract_Lifecycle.vo"],
     engines=[Engine(name="chan01", c_srcs=["harness/sim.c", "harness/chan_drv.c", "harness/chan01_trace.c"],
                     ml_srcs=["ocaml/gen/LifecycleModel.ml", "ocaml/chan01_drv.ml"], ml_packages=["str"],
-                    wraps=WRAPS, gen=histgen.gen, n_quick=3000, n_thorough=100000, timeout=3000)],
+                    wraps=WRAPS, gen=histgen.gen, n_quick=3000, n_thorough=30000, timeout=3000)],
     trusted_base=["Coq 8.16.1 kernel + coqc (vm_compute; no native_compute)",
                   "extraction (ExtrOcamlBasic only, no Extract Constant) + OCaml 4.13.1",
                   "harness/sim.c + harness/chan_drv.c (channel simulator: virtual sockets, clock, RNG; callback bookkeeping)",
